@@ -287,8 +287,48 @@ func concScenario(variant int) *engine.Scenario {
 	return sc
 }
 
+// fullSetScenario: the active set is exactly full, two new handshakes are checked at the same
+// time, then the most recent handshake from before is presented again: it is among the most
+// recent N checked ones and must be refused whatever the interleaving.
+func fullSetScenario(n int) *engine.Scenario {
+	var replayAccepted, freshOK bool
+	sc := &engine.Scenario{Name: fmt.Sprintf("cache-conc-full-%d", n)}
+	sc.Body = func() {
+		replayAccepted, freshOK = false, true
+		cache := service.NewReplayCache(n)
+		for i := 0; i < n; i++ {
+			cache.Add("key", saltN(i))
+		}
+		var ts []*vrt.Thread
+		for j := 0; j < 2; j++ {
+			j := j
+			ts = append(ts, vrt.Spawn(fmt.Sprintf("add%d", j), func() {
+				if !cache.Add("key", saltN(100+j)) {
+					freshOK = false
+				}
+			}))
+		}
+		vrt.Join(ts...)
+		// log: 0..n-1, 100, 101 -> the last n entries include n-1 as long as n >= 3
+		replayAccepted = cache.Add("key", saltN(n-1))
+	}
+	sc.Check = func(x *vrt.Exec) (string, bool, []*engine.Finding) {
+		fs := hk.Generic(x, hk.Opts{})
+		if x.Crash == "" && !x.Deadlock {
+			if replayAccepted {
+				fs = append(fs, &engine.Finding{Sig: "replay-accepted", Msg: fmt.Sprintf("history %d: after two handshakes were checked at the same time on a full active set, handshake %d (among the most recent %d checked) was accepted again", n, n-1, n)})
+			}
+			if !freshOK {
+				fs = append(fs, &engine.Finding{Sig: "fresh-refused", Msg: "a never-seen handshake was refused"})
+			}
+		}
+		return fmt.Sprint(replayAccepted, freshOK), true, fs
+	}
+	return sc
+}
+
 func concScenarios() []*engine.Scenario {
-	return []*engine.Scenario{concScenario(0), concScenario(1)}
+	return []*engine.Scenario{concScenario(0), concScenario(1), fullSetScenario(3), fullSetScenario(4)}
 }
 
 func init() {
